@@ -23,7 +23,14 @@ def copy_backend():
         d = os.path.join(KQB, sub)
         shutil.rmtree(d, ignore_errors=True)
         os.makedirs(d)
-    for f in COPIED:
+    # the files Go compiles for freebsd in the CURRENT tree (a function moved into a new file is followed)
+    files = list(COPIED)
+    rc, out = sh("go list -f '{{join .GoFiles \" \"}}' .", cwd=KQ_SRC, extra_env={"GOOS": "freebsd"}, timeout=120)
+    if rc == 0:
+        listed = [x for x in out.split() if x.endswith(".go") and not x.startswith("verif_hooks")]
+        if listed:
+            files = listed
+    for f in files:
         src = os.path.join(KQ_SRC, f)
         if not os.path.exists(src):
             return False, "missing source file " + src
